@@ -35,8 +35,11 @@ def helper(x):
 def _u(t):
     pass
 target(name="u", function=_u, sources=["a.txt"])
+INNER = ["in", (3, "x")]
+OUTER = [INNER, "s", [INNER], (INNER, "t")]
 def _t(t, d=[1, 2]):
     x = helper(1)
+    y = (INNER, OUTER)
 target(name="t", function=_t, deps=[":u"])
 `,
 	// a second package, loaded by its own goroutine, that needs the project's registry after a
@@ -247,6 +250,45 @@ func recordFaults(r *vlib.Run) {
 	for i, e := range sedits {
 		cases = append(cases, rfCase{file: e.file, kind: "structural", pos: i, edit: e.desc})
 	}
+	// single-byte corruptions of the environment encodings inside the records (the stamp is
+	// base64 text: a corruption of the file's bytes changes six bits; here every byte of the
+	// encoding itself takes small values (memo ids, lengths), its neighbours and a flipped low bit;
+	// thorough: every value). A reference redirected to an enclosing container makes the recorded
+	// environment self-referential.
+	stampRaw := map[string][]byte{}
+	for _, f := range files {
+		var rec record
+		if !strings.Contains(f, "targets") || json.Unmarshal(orig[f], &rec) != nil || rec.Stamp == "" {
+			continue
+		}
+		raw, err := base64.StdEncoding.DecodeString(rec.Stamp)
+		if err != nil {
+			continue
+		}
+		stampRaw[f] = raw
+		for p := range raw {
+			vals := map[int]bool{}
+			if r.Thorough() {
+				for v := 0; v < 256; v++ {
+					vals[v] = true
+				}
+			} else {
+				for v := 0; v <= 8; v++ {
+					vals[v] = true
+				}
+				vals[int(raw[p]^1)], vals[int(raw[p]+1)], vals[int(raw[p]-1)], vals[0xff] = true, true, true, true
+			}
+			delete(vals, int(raw[p]))
+			var vs []int
+			for v := range vals {
+				vs = append(vs, v)
+			}
+			sort.Ints(vs)
+			for _, v := range vs {
+				cases = append(cases, rfCase{file: f, kind: "stampbyte", pos: p, val: v, edit: fmt.Sprintf("byte %d of the environment encoding: %#02x -> %#02x", p, raw[p], v)})
+			}
+		}
+	}
 	if only := os.Getenv("VERIF_RF_ONLY"); only != "" {
 		for _, c := range cases {
 			if fmt.Sprintf("%s:%s:%d:%d", c.file, c.kind, c.pos, c.val) == only || (only == "allstructural" && c.kind == "structural") {
@@ -309,6 +351,13 @@ func recordFaults(r *vlib.Run) {
 			var rec map[string]any
 			json.Unmarshal(o, &rec)
 			rec["stamp"] = sedits[i-nByte].stamp
+			m, _ = json.Marshal(rec)
+		case "stampbyte":
+			raw := append([]byte{}, stampRaw[c.file]...)
+			raw[c.pos] = byte(c.val)
+			var rec map[string]any
+			json.Unmarshal(o, &rec)
+			rec["stamp"] = base64.StdEncoding.EncodeToString(raw)
 			m, _ = json.Marshal(rec)
 		}
 		if bytes.Equal(m, o) {
